@@ -134,15 +134,32 @@ def find_roles(prog):
                     if t in prog.functions:
                         wrapper = prog.functions[t]
                         dfun_call = (fi, c)
+        # Dfun handed over in a **kwargs dict: {'Dfun': f} ... minimize(**d)
+        if wrapper is None:
+            for x in walk_no_nested(fi.node):
+                if isinstance(x, ast.Dict):
+                    for k_, v_ in zip(x.keys, x.values):
+                        if isinstance(k_, ast.Constant) and \
+                                k_.value == "Dfun":
+                            t = prog.resolve_name(fit, norm(v_))
+                            mins = [c for c in walk_no_nested(fi.node)
+                                    if isinstance(c, ast.Call) and
+                                    norm(c.func).endswith("minimize")]
+                            if t in prog.functions and mins:
+                                wrapper = prog.functions[t]
+                                dfun_call = (fi, mins[0])
     if wrapper is None:
         raise AnalysisError("C04: no call passes Dfun= a repo function "
                             "(anchor vanished)")
     # analytic jacobian: callee of the wrapper on the non-empirical branch
     cands = []
     for c in walk_no_nested(wrapper.node):
-        if isinstance(c, ast.Call) and isinstance(c.func, ast.Name):
-            t = prog.resolve_name(fit, c.func.id)
-            if t in prog.functions and t != wrapper.qualname:
+        # called directly or selected as a function value
+        if isinstance(c, ast.Name) and isinstance(c.ctx, ast.Load) and \
+                c.id not in wrapper.params:
+            t = prog.resolve_name(fit, c.id)
+            if t in prog.functions and t != wrapper.qualname and \
+                    prog.functions[t] not in cands:
                 cands.append(prog.functions[t])
     analytic = [f for f in cands if any(
         isinstance(n, ast.If) and vary_param(n.test)
@@ -205,6 +222,30 @@ def r1(ctx, prog, fit, jac):
                                     sfx)
             tr.env[norm(s.targets[0])] = S[sfx]
             continue
+        if isinstance(s, ast.Assign) and \
+                isinstance(s.targets[0], ast.Tuple) and \
+                isinstance(s.value, ast.Call) and \
+                prog.resolve_name(fit, norm(s.value.func)) in prog.functions:
+            # amp, xo, ... = helper(pars, prefix) returning the .value's
+            h = prog.functions[prog.resolve_name(fit, norm(s.value.func))]
+            rets = [r for r in walk_no_nested(h.node)
+                    if isinstance(r, ast.Return)]
+            if len(rets) == 1 and isinstance(rets[0].value, ast.Tuple) and \
+                    len(rets[0].value.elts) == len(s.targets[0].elts):
+                def sfx_of(e):
+                    if isinstance(e, ast.Name):
+                        d = [a for a in walk_no_nested(h.node)
+                             if isinstance(a, ast.Assign) and
+                             norm(a.targets[0]) == e.id]
+                        e = d[0].value if len(d) == 1 else e
+                    if isinstance(e, ast.Attribute) and e.attr == "value":
+                        return suffix_of(e.value)
+                    return None
+                sf = [sfx_of(e) for e in rets[0].value.elts]
+                if all(x in S for x in sf):
+                    for t_, x in zip(s.targets[0].elts, sf):
+                        tr.env[norm(t_)] = S[x]
+                    continue
         if isinstance(s, ast.Assign) and isinstance(s.value, ast.BinOp) and \
                 isinstance(s.value.left, ast.Constant) and \
                 isinstance(s.value.left.value, str):
@@ -521,6 +562,11 @@ def r6(ctx, prog, fit, wrapper, dfun_call):
              "the residual right-multiplies by B as well")
     fi, call = dfun_call
     kws = kwarg(call, "kws")
+    if isinstance(kws, ast.Name):
+        defs = [s for s in walk_no_nested(fi.node) if isinstance(s, ast.Assign)
+                and norm(s.targets[0]) == kws.id]
+        if len(defs) == 1:
+            kws = defs[0].value
     keys = [k.value for k in kws.keys] if isinstance(kws, ast.Dict) else None
     if keys is None:
         raise AnalysisError("C04-R6: kws= of the minimize call is not a dict "
